@@ -386,7 +386,10 @@ CHECKS = {
 MORE = {
     'C02': 'A harness whose object x was last written by an undo (a record '
            'pointing back to older data) makes every raw read through the '
-           'storage\'s own read/write handle a scheduling point.',
+           'storage\'s own read/write handle a scheduling point; a thread '
+           'asking for history() while a writer commits (the entries must be '
+           'the object\'s revisions); a connection that comes back from the '
+           'pool after ZODB.Connection.resetCaches().',
     'C03': 'Objects of a bit-set class that merges (every writer adds its own '
            'bit: no revision may lose a bit, every committed bit is in the '
            'final state, a failed commit\'s bit nowhere), writers across an '
@@ -401,7 +404,9 @@ MORE = {
            'a twin run without the failure produces); the abort / metadata / '
            'conflict / stray-tpc_abort / finish-callback victims also on '
            'three DemoStorage layerings and the BlobStorage wrapper over a '
-           'FileStorage and a MappingStorage, with blob stores.',
+           'FileStorage and a MappingStorage and a FileStorage with its own '
+           'blob directory, with blob stores; stray calls (incl. storeBlob) '
+           'with another transaction at every entry point.',
         'C06': 'DB.undoMultiple in both orders; after every refused DB.undo the '
            'next ordinary commit must go through (controlled locks).',
     'C07': 'Packs of a storage whose first request hit an empty database, a '
@@ -414,7 +419,10 @@ MORE = {
            'one ENOSPC at the n-th file-system operation of a pack for every '
            'n (pack time at the end and in the middle) and a stale .old that '
            'cannot be removed: a failed pack leaves the same answers, and the '
-           'next commit, pack and reopen work.',
+           'next commit, pack and reopen work; the BlobStorage wrapper\'s '
+           'own pack (over FileStorage and MappingStorage) against a '
+           'transaction that creates / rewrites a blob, up to 3 preemptions: '
+           'every committed blob reads back.',
     'C09': 'Torn-tail images opened read-only incl. start/stop iteration; a '
            'read-only open told about a blob directory that does not exist '
            'creates nothing.',
@@ -432,13 +440,17 @@ MORE = {
     'C12': 'Blob rewrites (FileStorage with a blob directory), a rival '
            'commit or another participant\'s failing vote after savepoints '
            '(plain objects, blobs, new objects), leftovers under the blob '
-           'temporary directory.',
+           'temporary directory; a savepoint or commit whose flush fails at '
+           'an unpicklable new object next to another new object.',
     'C13': 'Two live savepoints from states where a savepoint holds the blob '
            '/ only the plain object; the BlobStorage wrapper over FileStorage '
            'and MappingStorage; an undo that is started and aborted; a rival '
            'rewriting the blob itself; consumeFile of a missing file; a pack '
            'running inside another participant\'s vote; chains of undo / redo '
-           'of a creation and of a rewrite.',
+           'of a creation and of a rewrite; one undoMultiple of every set of '
+           '2+ rewrites of a blob (refused below a kept rewrite) followed by '
+           'a pack; a blob below a committed container written with 1-2 '
+           'savepoints while nothing references it and the cache is emptied.',
     'C14': 'A weak edge in the savepoint re-attach family (same WeakRef '
            'object attached twice), a holder of a missing-class object '
            'modified and stored while the class is missing, a weak '
@@ -454,7 +466,10 @@ MORE = {
            'every current state, a failing pack everything; a blob-capable '
            'base under a fresh implicit / pushed layer with every pair of '
            'blob operations first.',
-    'C17': 'A MappingStorage as the source of copyTransactionsFrom.',
+    'C17': 'A MappingStorage as the source of copyTransactionsFrom; a '
+           'source transaction the destination refuses (description too '
+           'long): what was copied before stays, the destination is left '
+           'outside any transaction with its commit lock free.',
     'C18': 'Backups during which the clock moves at every reading, within '
            'the same second as the step before (may be refused), with a pack '
            'completing inside the run; a start state whose newest increment '
